@@ -219,6 +219,27 @@ def sweep_unit(args):
                     break
             if bad:
                 break
+            # cut at every address that is not an instruction boundary (inside and just outside the support):
+            # nothing may be removed
+            others = [a0 + o for o in nonb] + [a0 - 1, a0 + tot, a0 + tot + 1]
+            for adr in others:
+                if adr < 0:
+                    continue
+                stats["cuts"] += 1
+                bb = type(b)(list(b.instr))
+                try:
+                    nrem = bb.cut(cpu.cst(adr, psz))
+                except Exception as ex:
+                    F("cut-exc:%s@%s" % exc_sig(ex), "cut(%#x) raised %r" % (adr, ex), start)
+                    bad = True
+                    break
+                if nrem != 0 or [(i.address.v, i.length) for i in bb.instr] != [(x[0], x[1]) for x in blk]:
+                    F("cut-nonboundary", "cut(%#x) at an address that starts no instruction of the block removed %r and kept %r; expected nothing removed" % (
+                        adr, nrem, [(i.address.v) for i in bb.instr]), start)
+                    bad = True
+                    break
+            if bad:
+                break
     return {"fails": fails, "stats": stats}
 
 
